@@ -20,8 +20,11 @@ from pathlib import Path
 ROOT = Path(__file__).resolve().parent.parent
 COQ = ROOT / "coq"
 BUILD = ROOT / "build"
-EVIDENCE = ROOT / "evidence"
-REPLAYS = ROOT / "replays"
+# a run against a scratch tree (seeded change) must not overwrite the evidence of the registered checks
+_ALT = os.environ.get("VERIF_OUT")
+EVIDENCE = Path(_ALT) / "evidence" if _ALT else ROOT / "evidence"
+REPLAYS = Path(_ALT) / "replays" if _ALT else ROOT / "replays"
+CASES = Path(_ALT) / "cases" if _ALT else BUILD / "cases"
 CORPUS = ROOT / "corpus"
 REPO = Path(os.environ.get("VERIF_REPO", "/repo"))
 NPROC = 16
@@ -196,10 +199,9 @@ class Check:
         self.cov = {}
         self.assumptions = []
         self.trusted = []
-        self.case_dir = BUILD / "cases" / pid
+        # one directory per run, so that two runs of the same property (quick + thorough, or a seeded tree) never clash
+        self.case_dir = CASES / pid / str(os.getpid())
         self.case_dir.mkdir(parents=True, exist_ok=True)
-        for f in self.case_dir.glob("*"):
-            f.unlink()
         kf = ROOT / "known_findings.json"
         self.known_findings = json.loads(kf.read_text()).get("findings", []) if kf.exists() else []
         self.gate = {"obligations": 0, "discharged": 0}
@@ -360,7 +362,7 @@ class Check:
         key = json.dumps(descriptor, sort_keys=True)
         if any(json.dumps(v[0], sort_keys=True) == key for v in self.violations):
             return
-        REPLAYS.mkdir(exist_ok=True)
+        REPLAYS.mkdir(parents=True, exist_ok=True)
         path = REPLAYS / f"{self.pid}_{len(self.violations)}_{self.tier}.json"
         obj = {"property": self.pid, "tier": self.tier, "seed": self.seed, "descriptor": descriptor}
         obj.update(replay)
@@ -398,8 +400,12 @@ class Check:
             "wall_s": round(time.time() - self.t0, 2),
             "violations": len(self.violations),
         }
-        EVIDENCE.mkdir(exist_ok=True)
+        EVIDENCE.mkdir(parents=True, exist_ok=True)
         (EVIDENCE / f"{self.pid}.json").write_text(json.dumps(ev, indent=1, default=str))
+        if not os.environ.get("VERIF_KEEP_CASES"):
+            import shutil
+
+            shutil.rmtree(self.case_dir, ignore_errors=True)
         for kf in self.known:
             print(f"KNOWN-FINDING: property={self.pid} {kf['id']}: {kf['what']}")
         for desc, path, no_input in self.violations:
